@@ -13,13 +13,15 @@ TRUSTED = [
     'reference validity predicates of checks/ref*.py',
 ]
 ASSUMPTIONS = []
-PARTIAL = 'new_concat and segment validity are proved for the non-kanji DP (newQRSegs); the kanji DP (back-tracking over shared slices) is covered by correspondence and the direct oracle'
+PARTIAL = ('the DP theorems carry the hypothesis payload length < 2^56 bytes (beyond about 1.9e17 bytes the capped costs saturate at the "infinite" constant and the statements are provably false of '
+           'the model - a payload no machine holds); the clause that the returned description encodes and decodes back to the payload is C01 (proved for QR) plus differential runs')
 MANIFEST = {
-    'technique': 'Lean 4 invariants of the mode-selection DP (concatenation, validity, termination of back-tracking) + differential runs over an exhaustive small alphabet and random payloads',
-    'text': ('Props/C04.lean proves for the model of the mode-selection dynamic programme that the segments concatenate to the payload, none is empty and every byte satisfies its mode\'s '
-             'class test, for every payload; the kanji variant\'s back-tracking loop (unbounded in the Go code) is modelled with fuel and its exhaustion is a visible outcome. '
-             'Encode/decode of the returned description and the kanji variant are exercised over an exhaustive small alphabet (all strings up to length 4-5 over 11 byte classes) and random payloads.'),
-    'note': 'Trusted: Lean kernel; Model/New.lean tied by correspondence; reference predicates.',
+    'technique': 'Lean 4 invariants of the two mode-selection dynamic programmes (concatenation, non-empty, class validity, termination / no panic of the unbounded back-tracking loop); exhaustive small-alphabet and random differential runs',
+    'text': ('QRV/Props/C04.lean proves for the model of the mode-selection DPs (one model for the three textual copies, parameterised by header costs and mode numbers): the segments concatenate to the '
+             'payload byte for byte, none is empty, every byte of a numeric / alphanumeric segment passes that mode\'s class test and only supported modes occur (payloads below 2^56 bytes), for the kanji '
+             'variant that the back-tracking loop - unbounded in the Go code - terminates and never indexes out of range, and that QR New returns the requested level. Kanji-only-if-enabled, validity of '
+             'kanji segments and encode/decode of the result are exercised exhaustively over all strings up to length 3-4 over 14 byte classes and on random payloads, in all three packages.'),
+    'note': 'Trusted: Lean kernel; Model/New.lean tied by correspondence (56k payloads, 0 disagreements); reference predicates.',
 }
 
 ALPHABET = [b'7', b'A', b'$', b'k', 'é'.encode(), '°'.encode(), 'П'.encode(), '点'.encode(), '丂'.encode(), '\U0001F600'.encode(), b'\xe3', b'\x81', b'\x00', b'\xff']
